@@ -29,12 +29,22 @@ pub static RECV_MAX_LEN: AtomicUsize = AtomicUsize::new(0);
 
 /// number of threads currently inside `recv` on RECV_LOG_FD ("the server is parked in a read on that connection")
 pub static RECV_PARKED: AtomicI32 = AtomicI32::new(0);
+/// number of `recv` calls made on RECV_LOG_FD so far; the call with index RECV_FAIL_AT (if >= 0) fails with errno
+/// RECV_FAIL_ERRNO without touching the socket (fault injection: EINTR, EAGAIN, ECONNRESET at an exact point)
+pub static RECV_COUNT: AtomicI64 = AtomicI64::new(0);
+pub static RECV_FAIL_AT: AtomicI64 = AtomicI64::new(-1);
+pub static RECV_FAIL_ERRNO: AtomicI32 = AtomicI32::new(0);
 
 #[no_mangle]
 pub unsafe extern "C" fn recv(fd: i32, buf: *mut libc::c_void, len: usize, flags: i32) -> isize {
     let watched = fd == RECV_LOG_FD.load(Ordering::Relaxed);
     if watched {
         RECV_MAX_LEN.fetch_max(len, Ordering::SeqCst);
+        let k = RECV_COUNT.fetch_add(1, Ordering::SeqCst);
+        if k == RECV_FAIL_AT.load(Ordering::SeqCst) {
+            *libc::__errno_location() = RECV_FAIL_ERRNO.load(Ordering::SeqCst);
+            return -1;
+        }
         RECV_PARKED.fetch_add(1, Ordering::SeqCst);
     }
     let r = libc::syscall(libc::SYS_recvfrom, fd as libc::c_long, buf, len, flags as libc::c_long, 0usize, 0usize) as isize;
